@@ -523,7 +523,8 @@ func refOf(seed int64, set, did, i int) hash.SHA256Hash {
 func genSet(r *ev.Run, idx int, keys []keyMat) *eventSet {
 	rnd := r.Rand(fmt.Sprintf("set/%d", idx))
 	set := &eventSet{Index: idx, Shape: shapes[idx%len(shapes)]}
-	big := r.Thorough() && (idx/len(shapes))%4 == 3 // 6-7 events: sampled orders
+	// 6-7 events, orders sampled: a quarter of the sets in the thorough tier, a few in the quick tier
+	big := r.Thorough() && (idx/len(shapes))%4 == 3 || !r.Thorough() && idx >= 2*len(shapes) && idx%2 == 0
 	rich := rnd.Intn(3) != 0                         // several controllers / services / keys
 	idReuse := rnd.Intn(4) == 0
 	timeMode := []string{"monotone", "equal-siblings", "all-equal", "skewed"}[rnd.Intn(4)]
@@ -861,12 +862,23 @@ func query(st didstore.Store, lab labeler, key string, id did.DID, md *resolver.
 	if doc == nil || meta == nil {
 		return qres{Key: key, Shape: "ERR:unexpected:nil result without error", Full: "nil"}, nil
 	}
-	b, _ := json.Marshal(doc)
+	b := docBytes(*doc)
 	sh, full := metaStrings(lab, *meta)
 	if !doc.ID.Equals(id) {
 		sh += " WRONG-ID=" + doc.ID.String()
 	}
 	return qres{Key: key, Shape: sh, Full: full + " doc=" + string(b), Doc: string(b)}, meta
+}
+
+// docBytes serialises a document completely and deterministically (members in struct order, context and controller
+// always as lists; the library's own MarshalJSON makes two more passes to turn one-element lists into strings).
+func docBytes(doc did.Document) string {
+	type plain did.Document
+	b, err := json.Marshal(plain(doc))
+	if err != nil {
+		return "unmarshallable: " + err.Error()
+	}
+	return string(b)
 }
 
 // digest asks the store everything the property lists. Keys are functions of the event set only (versions found by
@@ -890,6 +902,11 @@ func digest(st didstore.Store, set *eventSet, lab labeler) []qres {
 		out = append(out, q)
 		var times []time.Time
 		seenRef := map[string]bool{}
+		type ans struct {
+			q qres
+			m *resolver.DocumentMetadata
+		}
+		byHashAllow := map[string]ans{} // identical queries are asked once
 		for _, e := range set.Events {
 			if !e.DID.Equals(id) || seenRef[e.Tx.Ref.String()] {
 				continue
@@ -897,7 +914,13 @@ func digest(st didstore.Store, set *eventSet, lab labeler) []qres {
 			seenRef[e.Tx.Ref.String()] = true
 			ref, ph := e.Tx.Ref, e.Tx.PayloadHash
 			add(query(st, lab, p+"by-ref/"+e.Label+"/allow-deactivated", id, &resolver.ResolveMetadata{SourceTransaction: &ref, AllowDeactivated: true}))
-			add(query(st, lab, p+"by-hash/payload-"+e.Label+"/allow-deactivated", id, &resolver.ResolveMetadata{Hash: &ph, AllowDeactivated: true}))
+			a, ok := byHashAllow[ph.String()]
+			if !ok {
+				a.q, a.m = query(st, lab, "", id, &resolver.ResolveMetadata{Hash: &ph, AllowDeactivated: true})
+				byHashAllow[ph.String()] = a
+			}
+			a.q.Key = p + "by-hash/payload-" + e.Label + "/allow-deactivated"
+			out = append(out, a.q)
 			if both {
 				add(query(st, lab, p+"by-ref/"+e.Label+"/active", id, &resolver.ResolveMetadata{SourceTransaction: &ref}))
 				add(query(st, lab, p+"by-hash/payload-"+e.Label+"/active", id, &resolver.ResolveMetadata{Hash: &ph}))
@@ -915,7 +938,11 @@ func digest(st didstore.Store, set *eventSet, lab labeler) []qres {
 				break
 			}
 			visited[h.String()] = true
-			q, m := query(st, lab, "", id, &resolver.ResolveMetadata{Hash: &h, AllowDeactivated: true})
+			a, ok := byHashAllow[h.String()]
+			if !ok {
+				a.q, a.m = query(st, lab, "", id, &resolver.ResolveMetadata{Hash: &h, AllowDeactivated: true})
+			}
+			q, m := a.q, a.m
 			ident := "unresolvable"
 			if m != nil {
 				ident = q.Shape[:strings.Index(q.Shape, " deactivated=")]
@@ -980,9 +1007,8 @@ func iterDigest(key string, lab labeler, it func(resolver.DocIterator) error) []
 	type row struct{ id, shape, full, doc string }
 	var rows []row
 	err := it(func(doc did.Document, m resolver.DocumentMetadata) error {
-		b, _ := json.Marshal(doc)
 		sh, full := metaStrings(lab, m)
-		rows = append(rows, row{doc.ID.String(), sh, full, string(b)})
+		rows = append(rows, row{doc.ID.String(), sh, full, docBytes(doc)})
 		return nil
 	})
 	sort.Slice(rows, func(i, j int) bool { return rows[i].id < rows[j].id })
@@ -1344,7 +1370,7 @@ type setWork struct {
 	distinctTx int
 	mu         sync.Mutex
 	byHash     map[string]*seen
-	runs       []runInfo
+	runs       [][]runInfo // [order][replica]
 }
 
 func TestCheck(t *testing.T) {
@@ -1360,9 +1386,21 @@ func TestCheck(t *testing.T) {
 	r.Assume("event sets respect what the DAG guarantees: clock(tx) > clock(prev) for every prev, unique refs; signing times are NOT assumed to follow causal order")
 	r.Assume("transactions are delivered one at a time (the ambassador is a single sequential subscriber); concurrent Add is out of scope")
 
-	nSets := r.Pick(48, 400)
+	nSets := r.Pick(40, 208)
 	limit := r.Pick(24, 120)
-	replicas := r.Pick(2, 3)
+	// independent stores per order: quick 2; thorough 3 for sets with <= 24 orders, else alternately 2 and 1
+	// (measured cost is ~0.2 CPU-s per store under -race, so the 144k stores of the design estimate do not fit the budget)
+	repsOf := func(nOrders, oi int) int {
+		switch {
+		case !r.Thorough():
+			return 2
+		case nOrders <= 24:
+			return 3
+		case oi%2 == 0:
+			return 2
+		}
+		return 1
+	}
 	if s := os.Getenv("C10_SETS"); s != "" {
 		fmt.Sscan(s, &nSets)
 	}
@@ -1374,6 +1412,7 @@ func TestCheck(t *testing.T) {
 	}
 
 	works := make([]*setWork, nSets)
+	planned := 0
 	for si := range works {
 		set := genSet(r, si, keys)
 		w := &setWork{set: set, lab: labeler{}, byHash: map[string]*seen{}}
@@ -1384,7 +1423,11 @@ func TestCheck(t *testing.T) {
 		}
 		w.distinctTx = len(dt)
 		w.ords, w.exhaustive = orders(r.Rand(fmt.Sprintf("orders/%d", si)), len(set.Events), limit)
-		w.runs = make([]runInfo, len(w.ords)*replicas)
+		w.runs = make([][]runInfo, len(w.ords))
+		for oi := range w.ords {
+			w.runs[oi] = make([]runInfo, repsOf(len(w.ords), oi))
+			planned += len(w.runs[oi])
+		}
 		works[si] = w
 	}
 
@@ -1413,20 +1456,20 @@ func TestCheck(t *testing.T) {
 								map[string]any{"order": orderString(w.set, res.order), "query": q.Key, "answer": q.Shape}})
 						}
 					}
-					idx := (j.oi*replicas+j.rep)*2 + di
+					idx := (j.oi*4+j.rep)*2 + di
 					w.mu.Lock()
 					if s, ok := w.byHash[h]; !ok || idx < s.idx {
 						w.byHash[h] = &seen{idx, res.order, res.replica, res.variant, res.stage[di], d}
 					}
 					w.mu.Unlock()
 				}
-				w.runs[j.oi*replicas+j.rep] = ri
+				w.runs[j.oi][j.rep] = ri
 			}
 		}()
 	}
 	for si, w := range works {
 		for oi := range w.ords {
-			for rep := 0; rep < replicas; rep++ {
+			for rep := range w.runs[oi] {
 				jobs <- job{si, oi, rep}
 			}
 		}
@@ -1450,12 +1493,13 @@ func TestCheck(t *testing.T) {
 	setsWithDifference := 0
 	for _, w := range works {
 		set, lab := w.set, w.lab
-		digests := 0
+		digests, stores := 0, 0
 		sameOrderDiffers := 0
 		for oi, ord := range w.ords {
 			hs := map[string]bool{}
-			for rep := 0; rep < replicas; rep++ {
-				ri := &w.runs[oi*replicas+rep]
+			for rep := range w.runs[oi] {
+				stores++
+				ri := &w.runs[oi][rep]
 				if ri.broken != "" {
 					r.Fatalf("harness failure in %s order [%s]: %s", set.name(), orderString(set, ord), ri.broken)
 				}
@@ -1498,14 +1542,14 @@ func TestCheck(t *testing.T) {
 		} else {
 			allExhaustive = false
 		}
-		summary = append(summary, perSet{set.name(), set.Features, len(set.Events), len(w.ords), len(w.runs), digests, len(w.byHash), w.exhaustive})
+		summary = append(summary, perSet{set.name(), set.Features, len(set.Events), len(w.ords), stores, digests, len(w.byHash), w.exhaustive})
 		var reps []*seen
 		for _, s := range w.byHash {
 			reps = append(reps, s)
 		}
 		sort.Slice(reps, func(i, j int) bool { return reps[i].idx < reps[j].idx })
 		if set.Index < 4 {
-			r.Sample(map[string]any{"set": set.name(), "features": set.Features, "events": set.witness(lab), "orders": len(w.ords), "exhaustive": w.exhaustive, "stores": len(w.runs),
+			r.Sample(map[string]any{"set": set.name(), "features": set.Features, "events": set.witness(lab), "orders": len(w.ords), "exhaustive": w.exhaustive, "stores": stores,
 				"distinct_digests": len(w.byHash), "queries_per_digest": len(reps[0].d), "example_order": orderString(set, w.ords[len(w.ords)-1])})
 		}
 		if len(reps) > 1 {
@@ -1523,8 +1567,8 @@ func TestCheck(t *testing.T) {
 					if len(diffs) > 6 {
 						diffs = diffs[:6]
 					}
-					r.Violation(key, fmt.Sprintf("%s %v: %d distinct resolution digests over %d orders x %d stores (%d orders give different digests on identical deliveries); order [%s] (%s, replica %d) and order [%s] (%s, replica %d) differ in %s: %q vs %q",
-						set.name(), set.Features, len(reps), len(w.ords), replicas, sameOrderDiffers, orderString(set, ref.order), ref.stage, ref.replica, orderString(set, other.order), other.stage, other.replica,
+					r.Violation(key, fmt.Sprintf("%s %v: %d distinct resolution digests over %d orders on %d stores (%d orders give different digests on identical deliveries); order [%s] (%s, replica %d) and order [%s] (%s, replica %d) differ in %s: %q vs %q",
+						set.name(), set.Features, len(reps), len(w.ords), stores, sameOrderDiffers, orderString(set, ref.order), ref.stage, ref.replica, orderString(set, other.order), other.stage, other.replica,
 						diffs[0].Query, clip(diffs[0].A), clip(diffs[0].B)),
 						map[string]any{"set": set.name(), "features": set.Features, "events": set.witness(lab), "order_a": orderString(set, ref.order), "stage_a": ref.stage, "variant_a": ref.variant,
 							"order_b": orderString(set, other.order), "stage_b": other.stage, "variant_b": other.variant, "differences": diffs, "distinct_digests": len(reps), "orders_with_nondeterministic_result": sameOrderDiffers})
@@ -1536,7 +1580,8 @@ func TestCheck(t *testing.T) {
 	r.Extra("per_set", summary)
 	r.Extra("event_sets_with_more_than_one_digest", setsWithDifference)
 	r.Extra("order_limit_per_set", limit)
-	r.Extra("stores_per_order", replicas)
+	r.Extra("stores_per_order", map[string]any{"quick": 2, "thorough": "3 for sets with <= 24 orders, else alternately 2 and 1"})
+	r.Extra("stores_planned", planned)
 }
 
 func clip(s string) string {
